@@ -81,8 +81,24 @@ def run(ctx):
     body = la.cfg.loop_body(wl.id)
     cons = [nid for nid, c in la.find_calls("self.consume_sample") if nid in body]
     caps = [n for n in la.nodes() if n.kind == "if" and n.id in body and canon(n.ast.test) == cexpr("self.iteration >= self.max_iteration")]
-    okcap = len(caps) == 1 and any(isinstance(s, ast.Break) for s in caps[0].ast.body) and len(cons) == 1 and la.cfg.must_pass(wl.id, caps[0].id, [cons[0]]) and wl.ast.body[-1] is caps[0].ast
-    ctx.ob("R-ORDER", "C15.2", lp, "iteration cap is tested after every iteration (last statement of the loop body) and breaks the loop", okcap, "")
+    def _cycle_tests_cap(fa_, head, cap_nodes):
+        """every way round the loop (head -> ... -> head) passes one of the cap tests"""
+        g_ = fa_.cfg.g.copy()
+        g_.remove_nodes_from([c_.id for c_ in cap_nodes])
+        import networkx as _nx
+
+        return bool(cap_nodes) and not any(_nx.has_path(g_, s_, head) for s_ in g_.successors(head) if s_ in fa_.cfg.loop_body(head)) if head in g_ else False
+
+    okcap = len(caps) >= 1 and all(any(isinstance(s, ast.Break) for s in c_.ast.body) for c_ in caps) and len(cons) == 1 and _cycle_tests_cap(la, wl.id, caps)
+    ctx.ob("R-ORDER", "C15.2", lp, "the iteration cap is tested on every cycle of the loop and breaks it", okcap, "")
+    # a run that stopped at the cap must not advance when it is run again: the cap has to be tested between the entry of the
+    # function and the first consume_sample as well (loop guard, or a test that precedes consume_sample in the body)
+    g2_ = la.cfg.g.copy()
+    g2_.remove_nodes_from([c_.id for c_ in caps] + ([wl.id] if "max_iteration" in src(wl.ast.test) else []))
+    import networkx as _nx2
+
+    reenter = bool(cons) and la.cfg.entry in g2_ and cons[0] in g2_ and _nx2.has_path(g2_, la.cfg.entry, cons[0])
+    ctx.ob("R-DOM", "C15.3", lp, "a run stopped by the iteration cap consumes nothing more when it is run again (the cap is tested before the first consume_sample of a re-entered loop)", not reenter, "path: entry -> while condition > tolerance -> consume_sample without a test of iteration >= max_iteration; the cap is only tested after the sample was consumed")
     ctx.ob("R-ORDER", "C15.2", lp, "exactly one consume_sample per loop iteration", len(cons) == 1 and not [h for h in la.cfg.loops_containing(cons[0]) if h.id != wl.id], "")
     # condition provenance
     for f, n, kind in attr_stores(prog, "condition"):
@@ -127,6 +143,18 @@ def run(ctx):
     pops = nia.find_calls("self.populate_live_points")
     okp = len(pops) == 1 and ("self.finalised", False) in [(canon(e), t) for e, t in guard_facts(nia, pops[0][0])]
     ctx.ob("R-DOM", "C15.3", ni, "initialise() never redraws live points for a finalised run", okp, "")
+    # finalise() consumes the live points (live_points = None): a finished run may only be un-finalised where live points
+    # are drawn again in the same step, otherwise the next consume_sample / finalise iterates over None
+    for f_, n_, kind_ in attr_stores(prog, "finalised"):
+        if f_.cls is None or prog.cls(NS) not in prog.mro(f_.cls) or kind_ != "assign":
+            continue
+        fa_u = FA(f_)
+        st_ = n_ if isinstance(n_, ast.Assign) else fa_u.cfg.stmt_of(n_)
+        val_ = st_.value if isinstance(st_, ast.Assign) else None
+        if val_ is not None and const(val_, False) and f_.name != "__init__":
+            sid = fa_u.cfg.id_of(st_)
+            redraw = [nid for nid, c_ in fa_u.find_calls("self.populate_live_points") if fa_u.cfg.can_follow(sid, nid)]
+            ctx.ob("R-ORDER", "C15.3", f_, "a finished run is un-finalised (finalised = False) only where its live points are drawn again afterwards", bool(redraw), f"`{src(st_)}` under {[(canon(e), t) for e, t in guard_facts(fa_u, sid)]}; populate_live_points does not follow it", node=st_)
     # no likelihood evaluation reachable before the finalised guard
     ev = {prog.fn(tables.MODEL + ".evaluate_log_likelihood").qual, prog.fn(tables.MODEL + ".batch_evaluate_log_likelihood").qual}
     ctx.ob("R-DOM", "C15.3", lp, "nothing executes before the finalised guard (no likelihood evaluation can precede it)", lp.node.body[0] is first or (isinstance(lp.node.body[0], ast.Expr) and lp.node.body[1] is first), "")
@@ -139,9 +167,8 @@ def run(ctx):
     fb = wl2[0].ast.body[0]
     okb = isinstance(fb, ast.If) and sorted(canon(e) for e, t in conjuncts(fb.test, True)) == sorted([cexpr("self.iteration >= self.min_iteration"), "self.reached_tolerance"]) and isinstance(fb.body[0], ast.Break)
     ctx.ob("R-ORDER", "C15.2", il, "importance sampler tests `reached_tolerance and iteration >= min_iteration` first in every iteration and breaks", okb, f"`{src(fb)[:90]}`")
-    lb = wl2[0].ast.body[-1]
-    okl = isinstance(lb, ast.If) and canon(lb.test) == cexpr("self.iteration >= self.max_iteration") and isinstance(lb.body[0], ast.Break)
-    ctx.ob("R-ORDER", "C15.2", il, "iteration cap is the last statement of every iteration and breaks", okl, f"`{src(lb)[:80]}`")
+    caps2 = [n for n in ila.nodes() if n.kind == "if" and n.id in ila.cfg.loop_body(wl2[0].id) and canon(n.ast.test) == cexpr("self.iteration >= self.max_iteration") and any(isinstance(s_, ast.Break) for s_ in n.ast.body)]
+    ctx.ob("R-ORDER", "C15.2", il, "iteration cap is tested on every cycle of the loop and breaks", _cycle_tests_cap(ila, wl2[0].id, caps2), f"{len(caps2)} cap tests")
     crit = ila.find(lambda s: isinstance(s, ast.Assign) and any(is_self_attr(t, "criterion") for t in s.targets))
     upd = ila.find_calls("self.update_evidence")
     hist = ila.find_calls("self.update_history")
@@ -195,6 +222,13 @@ def run(ctx):
     dz = defs.get("log_dZ", [])
     okd = len(dz) == 2 and {canon(x.value) for x in dz} == {"abs(self.log_evidence - self.history['logZ'][-1])", "inf"}
     ctx.ob("R-SIB", "C15.4", csc, "criterion `log_dZ` = |log Z - previous recorded log Z| (inf at the first iteration)", okd, f"{[src(x.value) for x in dz]}")
+    # ... and the "previous recorded log Z" is the same quantity one iteration earlier: what update_history appends to
+    # history['logZ'] is the run's own log-evidence (self.state.logZ, directly or through the log_evidence property)
+    le_ = prog.cls(INS).methods.get("log_evidence")
+    le_ok = le_ is not None and [canon(n.value) for n in walk_no_nested(le_.node) if isinstance(n, ast.Return)] == ["self.state.logZ"]
+    rec_ = [(m_, c_) for m_ in prog.cls(INS).methods.values() for c_ in walk_no_nested(m_.node) if isinstance(c_, ast.Call) and isinstance(c_.func, ast.Attribute) and c_.func.attr in ("append", "extend", "insert") and canon(c_.func.value) == "self.history['logZ']"]
+    okrec = len(rec_) == 1 and rec_[0][0].name == "update_history" and rec_[0][1].func.attr == "append" and len(rec_[0][1].args) == 1 and canon(rec_[0][1].args[0]) in ("self.state.logZ", "self.log_evidence") and le_ok
+    ctx.ob("R-SIB", "C15.4", uh2, "the log Z recorded in the history (the `previous log Z` of log_dZ) is the run's own log-evidence self.state.logZ", okrec, f"{[(m_.name, src(c_)[:80]) for m_, c_ in rec_]}")
     er = prog.cls("nessai.evidence:_INSIntegralState").methods["compute_evidence_ratio"]
     rvals = sorted(canon(n.value) for n in walk_no_nested(er.node) if isinstance(n, ast.Return))
     ctx.ob("R-SIB", "C15.4", er, "evidence ratio = log Z(live points) - log Z (or - log Z(nested samples) when ns_only)", rvals == sorted(["self.log_evidence_live_points - self.log_evidence_nested_samples", "self.log_evidence_live_points - self.logZ"]), f"{rvals}")
@@ -243,10 +277,11 @@ CLAIM = {
 _N = "nessai/samplers/nestedsampler.py"
 _I = "nessai/samplers/importancesampler.py"
 MUTANTS = [
+    {"id": "ins-history-records-other-evidence", "file": _I, "old": '        self.history["logZ"].append(self.state.logZ)', "new": '        self.history["logZ"].append(self.training_samples.state.logZ)', "expect": "recorded in the history"},
     {"id": "ins-criteria-in-alias-table-order", "file": _I, "old": "        for c in stopping_criterion:\n            for criterion, aliases in self.stopping_criterion_aliases.items():\n                if c in aliases:\n                    self.stopping_criterion.append(criterion)\n", "new": "        for criterion, aliases in self.stopping_criterion_aliases.items():\n            for c in stopping_criterion:\n                if c in aliases:\n                    self.stopping_criterion.append(criterion)\n", "expect": "stored in the order the caller listed them"},
     {"id": "ins-tolerances-sorted", "file": _I, "old": "            self.tolerance = [float(t) for t in tolerance]\n", "new": "            self.tolerance = sorted(float(t) for t in tolerance)\n", "expect": "tolerances are stored in the caller's order"},
     {"id": "ns-loop-ge", "file": _N, "old": "        while self.condition > self.tolerance:\n", "new": "        while self.condition >= self.tolerance:\n", "expect": "strictly exceeds"},
-    {"id": "ns-cap-first", "file": _N, "edits": [(_N, "            self.periodically_log_state()\n\n            if self.iteration >= self.max_iteration:\n                logger.info(\"Reached max iteration\")\n                break\n", "            self.periodically_log_state()\n"), (_N, "        while self.condition > self.tolerance:\n\n            self.check_state()\n", "        while self.condition > self.tolerance:\n            if self.iteration >= self.max_iteration:\n                break\n            self.check_state()\n")], "expect": "iteration cap is tested after every iteration"},
+    {"id": "ns-cap-only-sometimes", "file": _N, "old": "            if self.iteration >= self.max_iteration:\n                logger.info(\"Reached max iteration\")\n                break\n", "new": "            if self.checkpointing:\n                if self.iteration >= self.max_iteration:\n                    logger.info(\"Reached max iteration\")\n                    break\n", "expect": "tested on every cycle"},
     {"id": "ns-history-records-other-value", "file": _N, "old": '        self.history["dlogZ"].append(self.condition)', "new": '        self.history["dlogZ"].append(self.condition - self.tolerance)', "expect": "history records the very attribute"},
     {"id": "ns-condition-before-increment", "file": _N, "edits": [(_N, "        self.state.increment(worst[\"logL\"])\n        self.nested_samples.append(worst)\n\n        self.condition = (", "        self.condition = ("), (_N, "            - self.state.logZ\n        )\n\n        # Replace the points", "            - self.state.logZ\n        )\n        self.state.increment(worst[\"logL\"])\n        self.nested_samples.append(worst)\n\n        # Replace the points")], "expect": "after the removed point was integrated"},
     {"id": "ns-condition-formula", "file": _N, "old": "                self.logLmax - self.iteration / float(self.nlive),", "new": "                self.logLmax - self.iteration / float(self.nlive + 1),", "expect": "condition = log(Z + Lmax X_i)"},
